@@ -447,6 +447,61 @@ func c18PackageOnce(c *fw.Ctx, id string, srcs map[string]string, withImporter b
 		if len(apkg.Scope.Objects) >= 5 {
 			c.Nontrivial(id)
 		}
+		// (5) decorate the *ast.Package that go/ast built (package scope with its Outer chain,
+		// Imports map of package objects whose Data is a scope) and compare the graphs
+		if withImporter {
+			d2 := decorator.NewDecorator(fsetA)
+			var dn dst.Node
+			var derr2 error
+			if sig, detail := fw.Try(func() { dn, derr2 = d2.DecorateNode(apkg) }); sig != "" {
+				c.Violate("decorate-package-panic", sig, id+"\n"+detail, "")
+				return
+			}
+			if derr2 != nil {
+				return
+			}
+			dp := dn.(*dst.Package)
+			if a, b := scopeNames(apkg.Scope), dscopeNames(dp.Scope); a != b {
+				viol("decorated-package-scope", fmt.Sprintf("scope of the decorated package: ast %s, dst %s", a, b))
+			}
+			for as, ds := apkg.Scope, dp.Scope; as != nil || ds != nil; as, ds = as.Outer, ds.Outer {
+				if (as == nil) != (ds == nil) {
+					viol("decorated-package-outer", "Outer chain of the package scope has a different length")
+					break
+				}
+				if scopeNames(as) != dscopeNames(ds) {
+					viol("decorated-package-outer", fmt.Sprintf("an outer scope differs: ast %s, dst %s", scopeNames(as), dscopeNames(ds)))
+					break
+				}
+			}
+			for k, ao := range apkg.Imports {
+				do := dp.Imports[k]
+				if do == nil {
+					viol("decorated-package-imports", "Imports["+k+"] missing after decoration")
+					continue
+				}
+				if int(ao.Kind) != int(do.Kind) || ao.Name != do.Name {
+					viol("decorated-package-imports", fmt.Sprintf("Imports[%s]: %s %q vs %s %q", k, ao.Kind, ao.Name, do.Kind, do.Name))
+				}
+				as, _ := ao.Data.(*ast.Scope)
+				ds, _ := do.Data.(*dst.Scope)
+				if (as == nil) != (ds == nil) || (as != nil && scopeNames(as) != dscopeNames(ds)) {
+					viol("decorated-package-imports", fmt.Sprintf("Imports[%s].Data (package scope): ast %s, dst %s", k, scopeNames(as), dscopeNames(ds)))
+				}
+				c.Observe("object_kinds", ao.Kind.String())
+			}
+			// per file: the identifier/object graph of the decorated package
+			for _, n := range names {
+				af := filesA[n]
+				df, ok := dp.Files[n]
+				if !ok {
+					viol("decorated-package-files", "file "+n+" missing in the decorated package")
+					continue
+				}
+				c18Graph(c, id+"/"+n, "decorated-package", identSeqAst(af), identSeqDst(df), func(a ast.Node) dst.Node { return d2.Dst.Nodes[a] }, srcs[n])
+			}
+			c.Count("decorated_packages", 1)
+		}
 	}()
 	return retry
 }
